@@ -9,6 +9,22 @@ macro_rules! cfg {
 
 fn main() {
     let mut run = Run::from_args("C10", "c10");
-    vcore::core_configs!(cfg, &mut run);
+    if run.tier == Tier::Thorough {
+        vcore::core_configs!(cfg, &mut run);
+    } else {
+        // quick: every digit type with one digit, a multi-digit width and a wide type
+        cfg!(&mut run, d8, 1, i128);
+        cfg!(&mut run, d8, 2, i128);
+        cfg!(&mut run, d8, 3, i128);
+        cfg!(&mut run, d8, 17, BigRef);
+        cfg!(&mut run, d16, 1, i128);
+        cfg!(&mut run, d16, 3, BigRef);
+        cfg!(&mut run, d32, 1, i128);
+        cfg!(&mut run, d32, 3, BigRef);
+        cfg!(&mut run, d64, 1, BigRef);
+        cfg!(&mut run, d64, 2, BigRef);
+        cfg!(&mut run, d64, 3, BigRef);
+        cfg!(&mut run, d64, 5, BigRef);
+    }
     std::process::exit(run.finish());
 }
